@@ -306,6 +306,8 @@ def z3_of_int(v):
         return v
     if isinstance(v, SymInt):
         return v.e
+    if isinstance(v, SymOpt):
+        return z3_of_int(v.value)
     if isinstance(v, bool):
         return z3.IntVal(1 if v else 0)
     if isinstance(v, int):
